@@ -4,9 +4,9 @@
    C. mod_global_init_expr changes exactly one initialiser.
    D. emission: every data segment / export / global / memory of the output is the stored request.
    E. reflection of [agree]. *)
-From Coq Require Import List Arith NArith ZArith Bool Lia.
+From Coq Require Import List Arith NArith ZArith Bool Lia FinFun.
 Import ListNotations.
-From Orca Require Import Util Wrap Reindex CheckReidx Additions CheckAdds.
+From Orca Require Import Util Wrap Reindex ReidxProofs CheckReidx Additions CheckAdds.
 Local Open Scope N_scope.
 
 (* ------------------------------------------------------------------------------------------ *)
@@ -594,4 +594,286 @@ Proof.
   exists (lenN (a_data s1)), od. repeat split; try assumption.
   rewrite <- Hr, Hl2, Hret, <- app_assoc. cbn [app]. rewrite <- Hlen1.
   clear. induction l1; cbn; auto.
+Qed.
+
+(* ------------------------------------------------------------------------------------------ *)
+(* G. add_global end to end on a module whose global ids are not pending recalculation (every freshly parsed module,
+   and every module to which only add_global / add_data / exports / mod_global_init_expr were applied):
+   the encoded module is the old one with exactly one more global, of exactly the requested type and initial value,
+   and the returned id is the index the id map sends it to. *)
+Definition ids_pos (l : list item) : Prop := map it_id l = map N.of_nat (seq 0 (length l)).
+
+Lemma seq_N_nodup n : NoDup (map N.of_nat (seq 0 n)).
+Proof.
+  apply Injective_map_NoDup; [|apply seq_NoDup]. intros a b H. apply Nat2N.inj. exact H.
+Qed.
+Lemma ids_pos_nodup l : ids_pos l -> NoDup (map it_id l).
+Proof. unfold ids_pos. intros ->. apply seq_N_nodup. Qed.
+Lemma ids_pos_app l fp imp d : ids_pos l -> ids_pos (l ++ [mkItem (lenN l) imp d fp]).
+Proof.
+  unfold ids_pos, lenN. intros H. rewrite map_app, app_length, H. cbn [length map it_id].
+  rewrite Nat.add_1_r, seq_S, map_app. reflexivity.
+Qed.
+Lemma ids_pos_nth l p it : ids_pos l -> nth_error l p = Some it -> it_id it = N.of_nat p.
+Proof.
+  unfold ids_pos. intros H Hn.
+  assert (E : nth_error (map it_id l) p = Some (it_id it)) by (rewrite nth_error_map, Hn; reflexivity).
+  rewrite H, nth_error_map in E.
+  assert (Hp : (p < length l)%nat) by (apply nth_error_Some; rewrite Hn; discriminate).
+  rewrite nth_error_nth' with (d := 0%nat) in E by (rewrite seq_length; exact Hp). rewrite seq_nth in E by exact Hp.
+  cbn in E. inversion E. reflexivity.
+Qed.
+
+Lemma nodup_app_l {A} : forall (l l' : list A), NoDup (l ++ l') -> NoDup l.
+Proof.
+  induction l as [|a l IH]; intros l' H; [constructor|]. cbn in H. inversion H; subst. constructor.
+  - intros Hin. apply H2. apply in_or_app. left. exact Hin.
+  - apply (IH l'). exact H3.
+Qed.
+
+Definition extends (m m' : list (N * N)) : Prop := forall g q, lookup m g = Some q -> lookup m' g = Some q.
+
+Lemma mapping_extends l x : NoDup (map it_id (l ++ [x])) -> extends (mapping l) (mapping (l ++ [x])).
+Proof.
+  intros Hnd g q H.
+  assert (Hnd0 : NoDup (map it_id l)) by (rewrite map_app in Hnd; apply nodup_app_l in Hnd; exact Hnd).
+  destruct (in_dec N.eq_dec g (map it_id l)) as [Hin|Hni].
+  - apply in_map_iff in Hin as (it & Hid & Hin). apply In_nth_error in Hin as (p & Hp).
+    pose proof (ReidxProofs.mapping_pos l p it Hnd0 Hp) as M. rewrite Hid, H in M. inversion M; subst q.
+    rewrite <- Hid. apply (ReidxProofs.mapping_pos (l ++ [x]) p it Hnd). rewrite nth_error_app1; [exact Hp|].
+    apply nth_error_Some. rewrite Hp. discriminate.
+  - rewrite (ReidxProofs.mapping_absent l g Hni) in H. discriminate.
+Qed.
+
+Lemma fix_init_extends mf mg mg' : extends mg mg' -> forall e e', fix_init mf mg e = Ok e' -> fix_init mf mg' e = Ok e'.
+Proof.
+  intros Hx. induction e as [|i e IH]; intros e' H; cbn [fix_init] in *; [exact H|].
+  destruct (fix_instr mf mg i) as [i'|] eqn:Ei; [|discriminate].
+  destruct (fix_init mf mg e) as [r|] eqn:Er; [|discriminate]. inversion H; subst e'.
+  rewrite (IH r eq_refl).
+  assert (Ei' : fix_instr mf mg' i = Ok i').
+  { destruct i as [v|g|f|ht]; cbn [fix_instr] in *; try exact Ei.
+    destruct (lookup mg g) as [q|] eqn:L; [|discriminate]. rewrite (Hx g q L). exact Ei. }
+  rewrite Ei'. reflexivity.
+Qed.
+Lemma rmap_mono {A B} (f f' : A -> res B) : (forall x y, f x = Ok y -> f' x = Ok y) -> forall l r, rmap f l = Ok r -> rmap f' l = Ok r.
+Proof.
+  intros Hf. induction l as [|a l IH]; intros r H; cbn [rmap] in *; [exact H|].
+  destruct (f a) as [y|] eqn:Ea; [|discriminate]. destruct (rmap f l) as [r0|] eqn:El; [|discriminate]. inversion H; subst r.
+  rewrite (Hf a y Ea), (IH r0 eq_refl). reflexivity.
+Qed.
+Lemma rmap_app {A B} (f : A -> res B) : forall l1 l2 r1 r2, rmap f l1 = Ok r1 -> rmap f l2 = Ok r2 -> rmap f (l1 ++ l2) = Ok (r1 ++ r2).
+Proof.
+  induction l1 as [|a l1 IH]; intros l2 r1 r2 H1 H2; cbn [rmap app] in *; [inversion H1; subst; exact H2|].
+  destruct (f a) as [y|]; [|discriminate]. destruct (rmap f l1) as [r0|] eqn:E; [|discriminate]. inversion H1; subst r1.
+  rewrite (IH l2 r0 r2 eq_refl H2). reflexivity.
+Qed.
+
+Lemma index_space_norecalc x : s_recalc x = false -> index_space x = Ok (s_items x, mapping (s_items x)).
+Proof. unfold index_space. intros ->. reflexivity. Qed.
+
+Definition fresh_fp (s : astate) (fp : N) : Prop :=
+  (forall it, In it (s_items (m_g (a_m s))) -> it_fp it <> fp) /\ (forall i, In i (m_imports (a_m s)) -> i_fp i <> fp).
+
+Theorem add_global_end_to_end s fp t e s1 r dc sites o :
+  s_recalc (m_g (a_m s)) = false -> ids_pos (s_items (m_g (a_m s))) -> fresh_fp s fp ->
+  astep s (OAddGlobal fp t e) = Ok (s1, r) ->
+  aencode s dc sites = Ok o ->
+  forall lf mf e', index_space (m_f (a_m s)) = Ok (lf, mf) ->
+  fix_init mf (mapping (s_items (m_g (a_m s1)))) e = Ok e' ->
+  exists t', gty_conv t = Ok t'
+  /\ r = Some (lenN (s_items (m_g (a_m s))))
+  /\ lookup (mapping (s_items (m_g (a_m s1)))) (lenN (s_items (m_g (a_m s)))) = Some (lenN (s_items (m_g (a_m s))))
+  /\ aencode s1 dc sites
+     = Ok (mkO (ob_imports o) (ob_funcs o) (ob_globals o ++ [mkOG t' (enc_init e')]) (ob_mems o) (ob_data o)
+               (ob_exports o) (ob_sites o) (ob_dcount o))
+  /\ s_recalc (m_g (a_m s1)) = false /\ ids_pos (s_items (m_g (a_m s1))).
+Proof.
+  intros Hrc Hip [Hfr1 Hfr2] Hstep Henc lf mf e' Hf Hfix.
+  destruct (add_global_appends _ _ _ _ _ _ Hstep) as (t' & Ht & Hitems & Hr & Hpay & Hmf & Hmm & Himp & Hmpay & Hdata & Hexp).
+  exists t'. split; [exact Ht|]. split; [exact Hr|].
+  set (items := s_items (m_g (a_m s))) in *.
+  set (new := mkItem (lenN items) None false fp) in *.
+  assert (Hip1 : ids_pos (items ++ [new])) by (apply ids_pos_app; exact Hip).
+  assert (Hnd1 : NoDup (map it_id (items ++ [new]))) by (apply ids_pos_nodup; exact Hip1).
+  assert (Hrc1 : s_recalc (m_g (a_m s1)) = false).
+  { cbn [astep] in Hstep. rewrite Ht in Hstep. cbn [step] in Hstep. inversion Hstep; subst. cbn. exact Hrc. }
+  assert (Hgp1 : a_gpay s1 = (fp, mkGP t' (Some e)) :: a_gpay s).
+  { cbn [astep] in Hstep. rewrite Ht in Hstep. cbn [step] in Hstep. inversion Hstep; subst. reflexivity. }
+  assert (Hnew : lookup (mapping (items ++ [new])) (lenN items) = Some (lenN items)).
+  { pose proof (ReidxProofs.mapping_pos (items ++ [new]) (length items) new Hnd1) as M.
+    rewrite nth_error_app2, Nat.sub_diag in M by lia. specialize (M eq_refl). exact M. }
+  rewrite Hitems. split; [exact Hnew|]. split; [|split; [exact Hrc1 | exact Hip1]].
+  (* the encoding *)
+  unfold aencode in *. rewrite Hmf, Hmm, Hf in *.
+  rewrite (index_space_norecalc _ Hrc1), Hitems. rewrite (index_space_norecalc _ Hrc) in Henc. fold items in Henc.
+  destruct (index_space (m_m (a_m s))) as [[lm mm]|]; [|discriminate].
+  set (mg := mapping items) in *. set (mg1 := mapping (items ++ [new])) in *.
+  assert (Hext : extends mg mg1) by (apply mapping_extends; exact Hnd1).
+  destruct (rmap (emit_imp s) _) as [oi|] eqn:Ei; [|discriminate].
+  destruct (rmap (emit_global (a_gpay s) mf mg) _) as [og|] eqn:Eg; [|discriminate].
+  destruct (rmap (emit_mem (a_mpay s)) _) as [om|] eqn:Em; [|discriminate].
+  destruct (rmap (emit_data mf mg mm) _) as [od|] eqn:Ed; [|discriminate].
+  destruct (rmap (emit_export mf mm) _) as [oe|] eqn:Ee; [|discriminate].
+  destruct (rmap (emit_site mf mg mm) _) as [os|] eqn:Es; [|discriminate].
+  inversion Henc; subst o; clear Henc. cbn [ob_imports ob_funcs ob_globals ob_mems ob_data ob_exports ob_sites ob_dcount].
+  (* imports *)
+  assert (Ei1 : rmap (emit_imp s1) (filter (fun i => negb (i_del i)) (m_imports (a_m s1))) = Ok oi).
+  { rewrite Himp, <- Ei. apply rmap_ext_in. intros i Hi. apply filter_In in Hi as [Hi _].
+    unfold emit_imp. rewrite Hmpay, Hgp1. destruct (N.eqb (i_sp i) 1); [|reflexivity].
+    cbn [plookup]. destruct (N.eqb_spec (i_fp i) fp) as [Ef|_]; [exfalso; exact (Hfr2 i Hi Ef)|reflexivity]. }
+  rewrite Ei1.
+  (* globals *)
+  assert (Eg1 : rmap (emit_global (a_gpay s1) mf mg1) (filter (fun i => is_local i && negb (it_del i)) (items ++ [new]))
+                = Ok (og ++ [mkOG t' (enc_init e')])).
+  { rewrite filter_app. apply rmap_app.
+    - rewrite <- Eg.
+      transitivity (rmap (emit_global (a_gpay s) mf mg1) (filter (fun i => is_local i && negb (it_del i)) items)).
+      + apply rmap_ext_in. intros it Hit. apply filter_In in Hit as [Hit _]. unfold emit_global. rewrite Hgp1. cbn [plookup].
+        destruct (N.eqb_spec (it_fp it) fp) as [Ef|_]; [exfalso; exact (Hfr1 it Hit Ef)|reflexivity].
+      + rewrite Eg. eapply rmap_mono; [|exact Eg]. intros it y. unfold emit_global.
+        destruct (plookup (a_gpay s) (it_fp it)) as [[tt [ee|]]|]; try discriminate.
+        destruct (fix_init mf mg ee) as [ee'|] eqn:Ex; [|discriminate]. rewrite (fix_init_extends _ _ _ Hext _ _ Ex). auto.
+    - cbn [filter new is_local it_imp it_del andb negb rmap]. unfold emit_global. rewrite Hgp1. cbn [plookup it_fp]. rewrite N.eqb_refl.
+      fold items new in Hfix. rewrite Hitems in Hfix. fold mg1 in Hfix. rewrite Hfix. reflexivity. }
+  rewrite Eg1.
+  (* memories, data, exports, sites *)
+  rewrite Hmpay, Em, Hdata.
+  rewrite (rmap_mono (emit_data mf mg mm) (emit_data mf mg1 mm)) with (r := od); [|
+    intros d y; unfold emit_data; destruct d as [b|mem off b]; [auto|];
+    destruct (fix_init mf mg off) as [off'|] eqn:Ex; [|discriminate]; rewrite (fix_init_extends _ _ _ Hext _ _ Ex); auto | exact Ed].
+  rewrite Hexp, Ee.
+  rewrite (rmap_mono (emit_site mf mg mm) (emit_site mf mg1 mm)) with (r := os); [|
+    intros [n [x id]] y; unfold emit_site; destruct x; auto;
+    destruct (lookup mg id) as [q|] eqn:L; [|discriminate]; rewrite (Hext id q L); auto | exact Es].
+  reflexivity.
+Qed.
+
+(* any number of add_global calls with index-free initialisers (every constant form and ref.null): all succeed, return
+   consecutive ids, and the encoded module is the old one followed by exactly the requested globals, in order *)
+Definition greq := (N * gty * init)%type.
+Definition op_of (a : greq) : aop := let '(fp, t, e) := a in OAddGlobal fp t e.
+Definition render (a : greq) : oglobal :=
+  let '(fp, t, e) := a in mkOG (match gty_conv t with Ok t' => t' | Panic _ => t end) (enc_init e).
+Definition req_ok (a : greq) : Prop := let '(fp, t, e) := a in (exists t', gty_conv t = Ok t') /\ forallb index_free e = true.
+Fixpoint fresh_all (s : astate) (l : list greq) : Prop :=
+  match l with
+  | [] => True
+  | (fp, _, _) :: l' => fresh_fp s fp /\ ~ In fp (map (fun a => fst (fst a)) l') /\ fresh_all s l'
+  end.
+Fixpoint idsN (first : N) (n : nat) : list (option N) :=
+  match n with O => [] | S n' => Some first :: idsN (first + 1) n' end.
+
+Lemma fresh_all_step s s1 fp t e r l :
+  astep s (OAddGlobal fp t e) = Ok (s1, r) -> ~ In fp (map (fun a => fst (fst a)) l) -> fresh_all s l -> fresh_all s1 l.
+Proof.
+  intros Hstep. destruct (add_global_appends _ _ _ _ _ _ Hstep) as (t' & _ & Hitems & _ & _ & _ & _ & Himp & _).
+  induction l as [|[[fp' t0] e0] l IH]; intros Hni Hfr; cbn [fresh_all] in *; [exact I|].
+  destruct Hfr as ((F1 & F2) & Hnd & Hrest). cbn [map fst] in Hni.
+  split; [|split; [exact Hnd | apply IH; [intros H; apply Hni; right; exact H | exact Hrest]]].
+  split.
+  - intros it Hin. rewrite Hitems in Hin. apply in_app_or in Hin as [Hin|[<-|[]]]; [apply F1; exact Hin|].
+    cbn [it_fp]. intros E. apply Hni. left. symmetry. exact E.
+  - intros i Hin. rewrite Himp in Hin. apply F2. exact Hin.
+Qed.
+
+Lemma lenN_snoc {A} (l : list A) x : lenN (l ++ [x]) = lenN l + 1.
+Proof. unfold lenN. rewrite app_length. cbn. lia. Qed.
+
+Theorem add_globals_sequence : forall (adds : list greq) s rets dc sites o lf mf,
+  s_recalc (m_g (a_m s)) = false -> ids_pos (s_items (m_g (a_m s))) -> fresh_all s adds ->
+  Forall req_ok adds ->
+  aencode s dc sites = Ok o -> index_space (m_f (a_m s)) = Ok (lf, mf) ->
+  exists s',
+    arun s (map op_of adds) rets = (s', rets ++ idsN (lenN (s_items (m_g (a_m s)))) (length adds), false)
+    /\ aencode s' dc sites
+       = Ok (mkO (ob_imports o) (ob_funcs o) (ob_globals o ++ map render adds) (ob_mems o) (ob_data o)
+                 (ob_exports o) (ob_sites o) (ob_dcount o)).
+Proof.
+  induction adds as [|[[fp t] e] adds IH]; intros s rets dc sites o lf mf Hrc Hip Hfr Hok Henc Hf.
+  - exists s. cbn [map arun idsN length]. rewrite !app_nil_r. split; [reflexivity|]. rewrite Henc. destruct o; reflexivity.
+  - cbn [fresh_all] in Hfr. destruct Hfr as (Hfresh & Hni & Hrest). inversion Hok as [|a l Hreq Hok']; subst. unfold req_ok in Hreq. destruct Hreq as [[t' Ht] Hfree].
+    cbn [map op_of arun].
+    assert (Hstep : exists s1, astep s (OAddGlobal fp t e) = Ok (s1, Some (lenN (s_items (m_g (a_m s)))))).
+    { cbn [astep]. rewrite Ht. cbn [step]. eexists. reflexivity. }
+    destruct Hstep as (s1 & Hstep). rewrite Hstep.
+    destruct (add_global_end_to_end _ _ _ _ _ _ _ _ _ Hrc Hip Hfresh Hstep Henc lf mf e Hf (fix_init_index_free _ _ _ Hfree))
+      as (t'' & Ht'' & _ & _ & Henc1 & Hrc1 & Hip1).
+    rewrite Ht in Ht''. inversion Ht''; subst t''.
+    destruct (add_global_appends _ _ _ _ _ _ Hstep) as (_ & _ & Hitems & _ & _ & Hmf & _).
+    assert (Hf1 : index_space (m_f (a_m s1)) = Ok (lf, mf)) by (rewrite Hmf; exact Hf).
+    destruct (IH s1 (rets ++ [Some (lenN (s_items (m_g (a_m s))))]) dc sites _ lf mf Hrc1 Hip1
+                 (fresh_all_step _ _ _ _ _ _ _ Hstep Hni Hrest) Hok' Henc1 Hf1) as (s' & Hrun & Henc').
+    exists s'. split.
+    + rewrite Hrun. cbn [length idsN]. rewrite <- app_assoc. cbn [app]. rewrite Hitems, lenN_snoc. reflexivity.
+    + rewrite Henc'. cbn [ob_imports ob_funcs ob_globals ob_mems ob_data ob_exports ob_sites ob_dcount map render].
+      rewrite Ht, <- app_assoc. reflexivity.
+Qed.
+
+(* every freshly parsed module satisfies the hypotheses of the two theorems above: the stored ids are the positions and
+   the globals are not pending recalculation *)
+Definition ids_from_pos (pos : N) (l : list item) : Prop := map it_id l = map (fun j => pos + N.of_nat j) (seq 0 (length l)).
+Lemma seq_map_S pos n : map (fun j => pos + N.of_nat j) (seq 0 (S n)) = pos :: map (fun j => pos + 1 + N.of_nat j) (seq 0 n).
+Proof.
+  cbn [seq map]. rewrite N.add_0_r. f_equal. rewrite <- seq_shift, map_map. apply map_ext. intros j. lia.
+Qed.
+Lemma imp_items_ids : forall l code pos k, ids_from_pos pos (imp_items code pos k l).
+Proof.
+  unfold ids_from_pos. induction l as [|[c fp] l IH]; intros code pos k; cbn [imp_items]; [reflexivity|].
+  destruct (N.eqb c code); [|apply IH]. cbn [length map it_id]. rewrite seq_map_S. f_equal. apply IH.
+Qed.
+Lemma loc_items_ids : forall l pos, ids_from_pos pos (loc_items pos l).
+Proof.
+  unfold ids_from_pos. induction l as [|fp l IH]; intros pos; cbn [loc_items]; [reflexivity|].
+  cbn [length map it_id]. rewrite seq_map_S. f_equal. apply IH.
+Qed.
+Lemma seq_from : forall n st, map N.of_nat (seq st n) = map (fun j => N.of_nat st + N.of_nat j) (seq 0 n).
+Proof.
+  induction n as [|n IH]; intros st; [reflexivity|].
+  rewrite seq_map_S. cbn [seq map]. f_equal. rewrite IH. apply map_ext. intros j. lia.
+Qed.
+Lemma ids_from_pos_app a b : ids_from_pos 0 a -> ids_from_pos (lenN a) b -> ids_pos (a ++ b).
+Proof.
+  unfold ids_from_pos, ids_pos, lenN. intros Ha Hb. rewrite map_app, Ha, Hb, app_length, seq_app, map_app. apply (f_equal2 (@app N)).
+  - apply map_ext. intros j. lia.
+  - cbn [Nat.add]. rewrite seq_from. reflexivity.
+Qed.
+Theorem base_globals_clean (c : acase) :
+  s_recalc (m_g (a_m (abase c))) = false /\ ids_pos (s_items (m_g (a_m (abase c)))).
+Proof.
+  unfold abase, mk_base, mk_space. cbn [a_m m_g s_recalc s_items]. split; [reflexivity|].
+  apply ids_from_pos_app; [apply imp_items_ids | apply loc_items_ids].
+Qed.
+
+(* boolean versions of the freshness / request hypotheses (to discharge them on concrete states by computation) *)
+Definition fresh_fpb (s : astate) (fp : N) : bool :=
+  forallb (fun it => negb (N.eqb (it_fp it) fp)) (s_items (m_g (a_m s))) && forallb (fun i => negb (N.eqb (i_fp i) fp)) (m_imports (a_m s)).
+Lemma fresh_fpb_ok s fp : fresh_fpb s fp = true -> fresh_fp s fp.
+Proof.
+  unfold fresh_fpb, fresh_fp. intros H. apply andb_true_iff in H as [H1 H2]. rewrite forallb_forall in H1, H2. split.
+  - intros it Hin E. specialize (H1 it Hin). rewrite E, N.eqb_refl in H1. discriminate.
+  - intros i Hin E. specialize (H2 i Hin). rewrite E, N.eqb_refl in H2. discriminate.
+Qed.
+Fixpoint fresh_allb (s : astate) (l : list greq) : bool :=
+  match l with
+  | [] => true
+  | (fp, _, _) :: l' => fresh_fpb s fp && negb (existsb (N.eqb fp) (map (fun a => fst (fst a)) l')) && fresh_allb s l'
+  end.
+Lemma fresh_allb_ok s : forall l, fresh_allb s l = true -> fresh_all s l.
+Proof.
+  induction l as [|[[fp t] e] l IH]; cbn [fresh_allb fresh_all]; intros H; [exact I|].
+  apply andb_true_iff in H as [H H3]. apply andb_true_iff in H as [H1 H2].
+  split; [apply fresh_fpb_ok; exact H1|]. split; [|apply IH; exact H3].
+  intros Hin. apply negb_true_iff in H2. assert (E : existsb (N.eqb fp) (map (fun a => fst (fst a)) l) = true).
+  { apply existsb_exists. exists fp. split; [exact Hin|apply N.eqb_refl]. }
+  rewrite E in H2. discriminate.
+Qed.
+Definition req_okb (a : greq) : bool :=
+  let '(fp, t, e) := a in match gty_conv t with Ok _ => true | Panic _ => false end && forallb index_free e.
+Lemma req_okb_ok : forall l, forallb req_okb l = true -> Forall req_ok l.
+Proof.
+  induction l as [|[[fp t] e] l IH]; cbn [forallb]; intros H; [constructor|].
+  apply andb_true_iff in H as [H1 H2]. constructor; [|apply IH; exact H2].
+  unfold req_okb in H1. unfold req_ok. apply andb_true_iff in H1 as [Ha Hb]. split; [|exact Hb].
+  destruct (gty_conv t) as [t'|]; [exists t'; reflexivity|discriminate].
 Qed.
